@@ -89,7 +89,7 @@ class MieLens(ScatteringTheory):
         rho, phi, z = positions
         pol_angle = np.arctan2(
             illum_polarization.values[1], illum_polarization.values[0])
-        phi += pol_angle
+        phi = phi - pol_angle
         phi %= (2 * np.pi)
 
         # FIXME mielens assumes that the detector points are at a fixed z!
